@@ -376,3 +376,28 @@ Proof.
     split; [|auto]. split; [exact Hok2|]. cbn [r_start r_map r_fb]. split; [|exact Hfb].
     split; [discriminate|congruence].
 Qed.
+
+(* the ghost frontier and "recorded since the previous build": after a Record
+   the frontier S is at or below the number just recorded and at or below
+   every number it was at or below before (as long as they are inside the
+   window) - so whatever was recorded since the last build and is still
+   retained is at or after S, hence covered by the next build (C05_build) *)
+Lemma truth_cull_S g U t : t_S (truth_cull g U t) = t_S g.
+Proof.
+  unfold truth_cull. destruct (t_S g) eqn:E; [|exact E]. destruct (_ && _); [|exact E].
+  destruct (_ <? _); [reflexivity|exact E].
+Qed.
+
+Theorem truth_frontier g U t :
+  let g' := truth_record g U t in
+  exists s', t_S g' = Some s' /\
+    forall k, (k = U \/ exists s, t_S g = Some s /\ s <= k) -> t_lo g' <= k -> s' <= k.
+Proof.
+  cbv zeta. rewrite truth_record_unfold. cbv zeta. rewrite truth_cull_S.
+  set (S1 := match t_S g with None => U | Some s => Z.min s U end).
+  assert (H1 : forall k, (k = U \/ exists s, t_S g = Some s /\ s <= k) -> S1 <= k).
+  { intros k [->|(s & Hs & Hle)]; unfold S1; [destruct (t_S g); lia|rewrite Hs; lia]. }
+  destruct (match r_find U (t_R (truth_cull g U t)) with Some t0 => t0 >=? 0 | None => false end); cbn [t_S t_lo].
+  - exists S1. split; [reflexivity|]. intros k Hk _. apply H1, Hk.
+  - eexists. split; [reflexivity|]. intros k Hk Hlo. specialize (H1 k Hk). lia.
+Qed.
